@@ -25,6 +25,7 @@ var c08Steps = []hv.Step{
 	{Op: "WH", N: 103},            // an informational response: status and headers of the final one are still open
 	{Op: "Mut", K: "X-B", V: "9"}, // the value slice of a header edited in place
 	{Op: "KSet", K: "X-K", V: "3"}, // a header set through the map the handler obtained before anything was written
+	{Op: "Copy", N: 5},              // body bytes streamed with io.Copy
 }
 
 // headTrialRecovered: the GET handler program panics somewhere and a recovery option answers; HEAD must still
@@ -136,7 +137,7 @@ func headTrialOn(prog []hv.Step, viaGroup bool) (class, obs, exp string, outcome
 			if (s.Op == "Set" || s.Op == "Del" || s.Op == "KSet") && sent {
 				class = "head-headers-differ:set-after-write"
 			}
-			if s.Op == "W" || s.Op == "WH" && s.N >= 200 {
+			if s.Op == "W" || s.Op == "Copy" || s.Op == "WH" && s.N >= 200 {
 				sent = true
 			}
 		}
@@ -147,7 +148,7 @@ func headTrialOn(prog []hv.Step, viaGroup bool) (class, obs, exp string, outcome
 		if s.Op == "WH" && s.N >= 200 {
 			explicit = true
 		}
-		if s.Op == "W" {
+		if s.Op == "W" || s.Op == "Copy" {
 			total += s.N
 			writes++
 		}
